@@ -872,6 +872,7 @@ class Printer:
         ty = v['type'].get('qualType', '').rstrip()
         if init and unwrap(init[0]).get('kind') == 'LambdaExpr':
             self.note(f'lambda variable {v["name"]} (extracted separately / passed to a stub)')
+            self.__dict__.setdefault('lambda_vars', {})[v.get('id')] = unwrap(init[0])     # hooks.lambda_arg(n, P) follows `f(.., variable)`
             return ''
         c = self.ctype(v['type'])
         if c == 'struct nv_opaque' and not ty.endswith('&'):
